@@ -6,7 +6,7 @@
    signer — the VM itself is not modelled here; the block the ledger accepts is C06's matter, here the
    conditions a packed prefix satisfies are proved. *)
 From NG Require Import Common.Tactics Admission.Fee Admission.FeeProofs Admission.Admit Admission.AdmitProofs
-  Admission.Examples Mempool.Model Mempool.Spec Mempool.Examples.
+  Admission.Conflicts Admission.Examples Mempool.Model Mempool.Spec Mempool.Examples.
 Open Scope N_scope.
 
 (* the checks before the pool pass exactly when every listed condition holds *)
@@ -27,6 +27,16 @@ Theorem C07_admit_pool : forall U, good_universe U -> forall c t bal s x,
   /\ (forall e, fst (admit_tx c t bal s x) = inl e -> pool_eqv bal s (snd (admit_tx c t bal s x))).
 Proof. exact admit_pool. Qed.
 Print Assumptions C07_admit_pool.
+
+(* the "conflict on chain" fact: the DAO's record table (newest block index per named hash and per
+   (hash, signer), stub checked first) answers "has conflicts" exactly when some on-chain transaction
+   within the last MaxTraceableBlocks blocks names the hash and shares a signer - for every history of
+   on-chain transactions in chain order *)
+Theorem C07_conflict_records_exact : forall cur mtb es h signers,
+  (forall l1 e l2, es = l1 ++ e :: l2 -> forall x, In x l1 -> e_idx x <= e_idx e) -> below es cur ->
+  has_conflict (build es) h signers cur mtb = conflict_spec es h signers cur mtb.
+Proof. exact conflict_records_exact. Qed.
+Print Assumptions C07_conflict_records_exact.
 
 (* fee.Calculate charges exactly what the VM charges for running the standard scripts:
    sum of the opcode prices of invocation + verification script plus the signature checks *)
@@ -117,6 +127,13 @@ Proof. exact pack_short_header_refuted. Qed.
 Print Assumptions C07_pack_short_header_refuted.
 
 (* non-vacuity *)
+Example C07_example_conflict_history :
+  let es := [mkEvent 4 [9; 2] [0]; mkEvent 15 [9; 2] [0]; mkEvent 16 [9; 3] [0]] in
+  has_conflict (build es) 0 [2] 20 10 = true        (* only the newer record of signer 2 is traceable *)
+  /\ has_conflict (build es) 0 [2] 25 10 = false    (* expired, although signer 3's record is newer *)
+  /\ has_conflict (build es) 0 [3] 25 10 = true
+  /\ has_conflict (build es) 0 [4] 20 10 = false.
+Proof. vm_compute. repeat split; reflexivity. Qed.
 Example C07_example_admissible :
   precheck ex_chain (ex_facts (426000 + 3933900)) = None
   /\ precheck ex_chain (ex_facts (426000 + 3933900 - 1)) = Some AWitness
